@@ -59,7 +59,8 @@ func pkgPathOf(fn *ssa.Function) string {
 	return ""
 }
 
-func (st *State) intrinsic(th *Thread, fr *Frame, fn *ssa.Function, args []Value, c *ssa.CallCommon) (Value, stepStatus, bool) {
+func (st *State) intrinsic(th *Thread, fr *Frame, fv FuncV, args []Value, c *ssa.CallCommon) (Value, stepStatus, bool) {
+	fn := fv.Fn
 	name := fn.Name()
 	if strings.HasPrefix(name, "vrt") && fn.Signature.Recv() == nil {
 		if f, ok := vrtPrims[name]; ok {
@@ -86,7 +87,7 @@ func (st *State) intrinsic(th *Thread, fr *Frame, fn *ssa.Function, args []Value
 			return nil, stYield, true
 		}
 		st.opDone(th)
-		r := st.callSyncNoIntrinsic(th, FuncV{Fn: fn}, args)
+		r := st.callSyncNoIntrinsic(th, fv, args)
 		return r, stNext, true
 	}
 	return nil, stNext, false
@@ -109,8 +110,9 @@ func (st *State) callSyncNoIntrinsic(th *Thread, f FuncV, args []Value) Value {
 }
 
 // tryIntrinsic is used for engine-initiated calls (callSync, defers).
-func (st *State) tryIntrinsic(th *Thread, fn *ssa.Function, args []Value, c *ssa.CallCommon) (Value, bool) {
-	v, s, handled := st.intrinsic(th, nil, fn, args, c)
+func (st *State) tryIntrinsic(th *Thread, fv FuncV, args []Value, c *ssa.CallCommon) (Value, bool) {
+	fn := fv.Fn
+	v, s, handled := st.intrinsic(th, nil, fv, args, c)
 	if handled && s != stNext {
 		panic(pathAbort{kind: "INTERNAL", msg: "blocking intrinsic " + fn.String() + " in engine-initiated call"})
 	}
@@ -142,7 +144,7 @@ func (st *State) tryIntrinsicFuncV(th *Thread, f FuncV, args []Value) (Value, bo
 	if f.Fn == nil {
 		panic(st.violation("deferred call of nil function", nil))
 	}
-	return st.tryIntrinsic(th, f.Fn, args, nil)
+	return st.tryIntrinsic(th, f, args, nil)
 }
 
 func (st *State) goIntrinsic(th *Thread, fn *ssa.Function, args []Value) (Value, stepStatus, bool) {
@@ -322,6 +324,15 @@ func init() {
 		return st.strEq(StrV{Arr: a.Arr, Off: a.Off, Len: a.Len}, StrV{Arr: b.Arr, Off: b.Off, Len: b.Len})
 	})
 	vrtPrims["vrtSymbolic"] = simple(func(st *State, args []Value) Value { return st.tt.True })
+	vrtPrims["vrtYield"] = func(st *State, th *Thread, fn *ssa.Function, args []Value) (Value, stepStatus) {
+		if st.multi() {
+			if !st.syncPoint(th, "yield") {
+				return nil, stYield
+			}
+			st.opDone(th)
+		}
+		return nil, stNext
+	}
 	vrtPrims["vrtWaitQuiescent"] = func(st *State, th *Thread, fn *ssa.Function, args []Value) (Value, stepStatus) {
 		return nil, st.quiesce(th)
 	}
